@@ -535,7 +535,9 @@ func fnKey(f *ssa.Function) string {
 
 func (ip *Interp) callSSA(caller *frame, fn *ssa.Function, args []Value, env []Value) (result Value) {
 	name := fnKey(fn)
-	if in, ok := ip.intrinsics[name]; ok {
+	if in, ok := ip.intrinsics[name]; ok && (len(ip.provided) == 0 || ip.provided["real:"+name] == nil) {
+		// verifsym.Provide("real:<function>", true) makes a harness run the real
+		// body of a function that is otherwise replaced by a contract stub
 		if ip.Used[name] == "" {
 			ip.Used[name] = "intrinsic"
 		}
